@@ -1093,6 +1093,17 @@ func (s *Sim) SetLimits(maxSteps uint64, tickLimit int) {
 	}
 }
 
+// SetStrategy switches the scheduling strategy for the rest of the run (or until switched back)
+// and returns the previous one. Harnesses use it to obtain a non-preemptive reference execution.
+func (s *Sim) SetStrategy(st Strategy) Strategy {
+	prev := s.cfg.Strategy
+	s.cfg.Strategy = st
+	if st == StratPCT && s.pctChange == nil {
+		s.pctChange = map[uint64]bool{}
+	}
+	return prev
+}
+
 // SetMaxSimTime changes the simulated-time budget of the run.
 func (s *Sim) SetMaxSimTime(d time.Duration) { s.cfg.MaxSimTime = d }
 
